@@ -41,6 +41,7 @@ structure Spec where
   mem   : Mem
   kinds : String
   indices : List Nat
+  prios : List Int
 
 def parseSpec (ws : List String) : Option Spec := do
   let q ← field ws "q"
@@ -53,10 +54,10 @@ def parseSpec (ws : List String) : Option Spec := do
   let indices := cccdIndices prios
   let attrs ← ((← field ws "attrs").splitOn ",").mapM (parseAttr indices)
   pure { decl := { attrs := attrs.map (·.1), serverMtu := mtu, nCccd := prios.length, queueSize := queueSize },
-         mem := mem, kinds := String.ofList (attrs.map (·.2)), indices := indices }
+         mem := mem, kinds := String.ofList (attrs.map (·.2)), indices := indices, prios := prios }
 
 def Spec.describe (sp : Spec) : String :=
-  s!"ok q={sp.decl.queueSize.getD 0} mtu={sp.decl.serverMtu} cccd={sp.decl.nCccd} kinds={sp.kinds} idx={",".intercalate (sp.indices.map toString)}"
+  s!"ok q={sp.decl.queueSize.getD 0} mtu={sp.decl.serverMtu} cccd={sp.decl.nCccd} kinds={sp.kinds} idx={",".intercalate (sp.indices.map toString)} prios={",".intercalate (sp.prios.map toString)}"
 
 def outStr : Out → String
   | .resp bytes cb => s!"{toHex bytes} cb={cb}"
